@@ -1,6 +1,1018 @@
-//! C18 — not implemented yet.
+//! C18 — element containers never duplicate, leak or touch a moved-out element.
+//!
+//! Three families of checks, all with the ownership-tracking element type `ledger::Tracked`:
+//!
+//! (a) consuming-iterator HISTORIES over {next, next_back, len, size_hint, {:?}, ==, hash, drop-now} for all
+//!     13 vector types: an exhaustive (cursor state x interleaving x consumer policy x operation) table per
+//!     type plus random histories. Model = a deque of ids.
+//! (b) CONVERSIONS (arrays, tuples, iterators, map/zip, matrix arrays in both orders and both layouts,
+//!     transposition, layout change): id at output position k = id the documentation places there; nothing
+//!     cloned, dropped or even observed in transit; nothing leaked.
+//! (c) VIEWS: slices alias the value's own storage, one entry per element in declaration order.
+//!
+//! What a correct `Debug` / `PartialEq` / `Hash` of the consuming iterator may do: touch LIVE elements
+//! (slots in [start, end)) only. Nothing else is asserted about them except: they do not panic, an
+//! iterator equals an identically-built, identically-driven twin, and equal iterators hash equally
+//! (the `Hash`/`Eq` contract). The output format of `{:?}` and the hash value are not constrained.
+
+pub mod ledger;
+pub mod shapes;
+
+use ledger::{Anomaly, Ctx, St, Tracked};
+use shapes::*;
+use std::collections::hash_map::DefaultHasher;
+use std::hash::{Hash, Hasher};
+use vek::mat::repr_c::column_major as cm;
+use vek::mat::repr_c::row_major as rm;
+use vek::vec::repr_c::{Extent2, Extent3, Rgb, Rgba, Uv, Uvw, Vec16, Vec2, Vec3, Vec32, Vec4, Vec64, Vec8};
 use vkit::*;
 
+const F8: &str = "F8-intoiter-derived-observers";
+
+// ------------------------------------------------------------------------------------------------
+// anomaly plumbing
+// ------------------------------------------------------------------------------------------------
+
+fn explain(a: &Anomaly) -> String {
+    match a {
+        Anomaly::DropUnknown { id, val } => format!("drop ran on a bit pattern that is not a registered element (id {}, val {:#x})", id, val),
+        Anomaly::DoubleDrop { id, st, who } => format!("DOUBLE DROP of element #{} (state {:?}, dropped again by the {:?})", id, st, who),
+        Anomaly::ContainerDroppedYielded { id, st } => format!("the container dropped element #{} which it had already yielded (state {:?}) - double ownership", id, st),
+        Anomaly::ConsumerDroppedUnowned { id, st } => format!("the consumer dropped element #{} which it does not own (state {:?}) - handed out without being moved?", id, st),
+        Anomaly::ObservedUnknown { obs, id, val, ctx } => format!("{:?} ran on a bit pattern that is not a registered element (id {}, val {:#x}, during {:?})", obs, id, val, ctx),
+        Anomaly::ObservedNotLive { obs, id, val, st, ctx } => format!("{:?} (during {:?}) read element #{} (val {}) whose state is {:?}, i.e. not owned by the container any more", obs, ctx, id, val, st),
+        Anomaly::YieldNotLive { id, st } => format!("element #{} was handed out although its state is {:?} (duplicate / dead element)", id, st),
+        Anomaly::YieldUnknown { id, val } => format!("an unregistered bit pattern was handed out (id {}, val {:#x})", id, val),
+    }
+}
+
+/// Look at the anomalies recorded since the last call. Everything except the F8 class fails the case;
+/// the F8 class is tolerated iff it is listed as an open known finding. Returns whether F8 was hit.
+fn settle(cx: &mut Cx, allow_f8: bool, at: &dyn Fn() -> String) -> Result<bool, Fail> {
+    let an = ledger::take_anomalies();
+    if an.is_empty() {
+        return Ok(false);
+    }
+    let mut f8_hit: Option<&Anomaly> = None;
+    for a in &an {
+        if allow_f8 && a.is_f8_class() {
+            if f8_hit.is_none() {
+                f8_hit = Some(a);
+            }
+        } else {
+            return Err(Fail::Violation(format!("{}: {}", at(), explain(a))));
+        }
+    }
+    if let Some(a) = f8_hit {
+        if cx.known(F8) {
+            cx.label("F8:iterator-observer-touched-yielded-element(tolerated)");
+            return Ok(true);
+        }
+        return Err(Fail::Violation(format!("{}: {} [{} such reads]", at(), explain(a), an.len())));
+    }
+    Ok(false)
+}
+
+/// Strict version for conversions and views.
+fn settle_strict(cx: &mut Cx, at: &dyn Fn() -> String) -> CaseResult {
+    settle(cx, false, at).map(|_| ())
+}
+
+/// After every container and every kept element has been dropped: each id dropped exactly once.
+fn all_dropped_once(cx: &mut Cx, at: &dyn Fn() -> String) -> CaseResult {
+    settle_strict(cx, at)?;
+    cx.count();
+    if let Some((id, e)) = ledger::first_not_dropped_once() {
+        let what = if e.st == St::Live || e.st == St::Yielded { "LEAKED (never dropped)" } else { "not dropped exactly once" };
+        fail!("{}: element #{} (val {:#x}) {}: {:?}", at(), id, e.val, what, e);
+    }
+    Ok(())
+}
+
+// ------------------------------------------------------------------------------------------------
+// (a) consuming-iterator histories
+// ------------------------------------------------------------------------------------------------
+
+#[derive(Clone, Copy, Debug, PartialEq, Eq)]
+enum Op {
+    Len,
+    SizeHint,
+    Next,
+    NextBack,
+    Debug,
+    Hash,
+    Eq,
+    DropNow,
+}
+const ALL_OPS: [Op; 8] = [Op::Len, Op::SizeHint, Op::Next, Op::NextBack, Op::Debug, Op::Hash, Op::Eq, Op::DropNow];
+
+#[derive(Clone, Copy)]
+struct Step {
+    op: Op,
+    /// for pulls: does the consumer keep the element (dropped after the iterator) or drop it at once
+    keep: bool,
+}
+
+fn describe(steps: &[Step]) -> String {
+    let mut s = String::new();
+    for (i, st) in steps.iter().enumerate() {
+        if i > 0 {
+            s.push_str(", ");
+        }
+        s.push_str(match st.op {
+            Op::Len => "len",
+            Op::SizeHint => "size_hint",
+            Op::Next => if st.keep { "next(keep)" } else { "next(drop)" },
+            Op::NextBack => if st.keep { "next_back(keep)" } else { "next_back(drop)" },
+            Op::Debug => "{:?}",
+            Op::Hash => "hash",
+            Op::Eq => "==twin",
+            Op::DropNow => "drop-now",
+        });
+    }
+    s.push_str(" ; drop iterator");
+    s
+}
+
+fn hash_of<H: Hash>(x: &H) -> u64 {
+    let mut h = DefaultHasher::new();
+    x.hash(&mut h);
+    h.finish()
+}
+
+/// Drive an iterator and an identically-built twin through `steps`, then drop both, then drop what the
+/// consumer kept, and compare everything with the deque model and the ledger.
+fn run_history<V: VecOps<N>, const N: usize>(steps: &[Step], cx: &mut Cx) -> CaseResult {
+    ledger::reset();
+    let n = N;
+    // element k of the main iterator has id k, of the twin id n+k; both have val k
+    let mut it = V::build(&mut |k| ledger::fresh(k as u32)).into_it();
+    let mut twin = V::build(&mut |k| ledger::fresh(k as u32)).into_it();
+    sample!(cx, "{} n={} history=[{}]", V::NAME, n, describe(steps));
+    let at = |i: usize| {
+        let upto = (i + 1).min(steps.len());
+        format!("{} (n={}) after [{}]{}", V::NAME, n, describe(&steps[..upto]).replace(" ; drop iterator", ""), if i >= steps.len() { " then drop of the iterator" } else { "" })
+    };
+    {
+        let t = ledger::totals();
+        check!(cx, t.ids == 2 * n && t.drops == 0 && t.clones == 0 && t.observed == 0, "{} into_iter(): elements were created/dropped/cloned/observed: {:?}", V::NAME, t);
+        settle(cx, false, &|| format!("{} into_iter()", V::NAME))?;
+    }
+    let (mut s, mut e) = (0usize, n); // model: live ids are s..e
+    let mut kept: Vec<Tracked> = Vec::new();
+    let (mut pf, mut pb) = (0usize, 0usize);
+    let mut observed_after_pull = false;
+    let mut pulled_when_empty = false;
+    let mut f8 = false;
+    for (i, st) in steps.iter().enumerate() {
+        match st.op {
+            Op::Next | Op::NextBack => {
+                let front = st.op == Op::Next;
+                let (r, r2) = if front { (it.next(), twin.next()) } else { (it.next_back(), twin.next_back()) };
+                let want = if s < e { Some(if front { s } else { e - 1 }) } else { None };
+                for (which, r, base) in [("iterator", r, 0usize), ("twin", r2, n)] {
+                    let got = r.as_ref().map(|t| (t.id, t.val));
+                    if let Some(t) = r {
+                        ledger::yielded(&t);
+                        if st.keep { kept.push(t) } else { ledger::consume(t) }
+                    }
+                    cx.count();
+                    let want_pair = want.map(|k| ((base + k) as u32, k as u32));
+                    if got != want_pair {
+                        fail!("{}: {} yielded (id,val) {:?}, the deque model [{}..{}) says {:?}", at(i), which, got, s, e, want_pair);
+                    }
+                }
+                match want {
+                    Some(_) => {
+                        if front { s += 1; pf += 1 } else { e -= 1; pb += 1 }
+                    }
+                    None => pulled_when_empty = true,
+                }
+            }
+            Op::Len => {
+                check_eq!(cx, it.len(), e - s, "{}: len()", at(i));
+                check_eq!(cx, twin.len(), e - s, "{}: twin len()", at(i));
+            }
+            Op::SizeHint => {
+                check_eq!(cx, it.size_hint(), (e - s, Some(e - s)), "{}: size_hint()", at(i));
+            }
+            Op::Debug => {
+                let text = ledger::with_ctx(Ctx::IterDebug, || format!("{:?}", it));
+                cx.count();
+                let _ = text; // format not constrained
+                observed_after_pull |= pf + pb > 0;
+            }
+            Op::Hash => {
+                let (h1, h2) = ledger::with_ctx(Ctx::IterHash, || (hash_of(&it), hash_of(&twin)));
+                check!(cx, h1 == h2, "{}: identically-built, identically-driven iterators hash differently ({:#x} vs {:#x})", at(i), h1, h2);
+                observed_after_pull |= pf + pb > 0;
+            }
+            Op::Eq => {
+                let (a, b) = ledger::with_ctx(Ctx::IterEq, || (it == twin, !(it != twin)));
+                check!(cx, a && b, "{}: iterator != its identically-built, identically-driven twin (==: {}, !(!=): {})", at(i), a, b);
+                observed_after_pull |= pf + pb > 0;
+            }
+            Op::DropNow => break,
+        }
+        f8 |= settle(cx, true, &|| at(i))?;
+        // the cheap invariant after every step
+        cx.count();
+        if it.len() != e - s {
+            fail!("{}: len() = {}, remaining count in the model = {}", at(i), it.len(), e - s);
+        }
+    }
+    let rem = e - s;
+    drop(it);
+    drop(twin);
+    settle(cx, false, &|| at(steps.len()))?;
+    for t in kept.drain(..) {
+        ledger::consume(t);
+    }
+    settle(cx, false, &|| format!("{} when the consumer dropped the elements it kept", at(steps.len())))?;
+    // final accounting: yielded exactly once XOR dropped by the iterator exactly once
+    let es = ledger::entries();
+    check!(cx, es.len() == 2 * n, "{}: {} elements exist at the end, {} were put in (clone / default created?)", at(steps.len()), es.len(), 2 * n);
+    for base in [0usize, n] {
+        for k in 0..n {
+            let en = es[base + k];
+            let was_yielded = k < s || k >= e;
+            cx.count();
+            let ok = if was_yielded {
+                en.yields == 1 && en.container_drops == 0 && en.consumer_drops == 1 && en.st == St::Gone
+            } else {
+                en.yields == 0 && en.container_drops == 1 && en.consumer_drops == 0 && en.st == St::Dropped
+            };
+            if !ok {
+                let what = if en.st == St::Live { "LEAKED: still live after the iterator was dropped" } else if was_yielded { "should have been yielded exactly once and never dropped by the iterator" } else { "should have been dropped exactly once by the iterator and never yielded" };
+                fail!("{}: element #{} (slot {}) {}: {:?}", at(steps.len()), base + k, k, what, en);
+            }
+            check!(cx, en.clones == 0, "{}: element #{} was cloned", at(steps.len()), base + k);
+        }
+    }
+    // measurement
+    let both_ends_nonempty_drop = pf >= 1 && pb >= 1 && rem >= 1;
+    cx.set_nontrivial(both_ends_nonempty_drop || observed_after_pull);
+    if both_ends_nonempty_drop { cx.label("pulled-both-ends,dropped-nonempty"); }
+    if observed_after_pull { cx.label("observer-after-pull"); }
+    if pulled_when_empty { cx.label("pull-on-exhausted->None"); }
+    if pf + pb == 0 { cx.label("dropped-untouched"); }
+    if rem == 0 { cx.label("drained"); }
+    if pf + pb > 0 && rem > 0 && !(pf >= 1 && pb >= 1) { cx.label("one-end-only,dropped-nonempty"); }
+    if !kept_policy_uniform(steps) { cx.label("consumer-mixes-keep-and-drop"); }
+    let _ = f8;
+    Ok(())
+}
+
+fn kept_policy_uniform(steps: &[Step]) -> bool {
+    let mut it = steps.iter().filter(|s| matches!(s.op, Op::Next | Op::NextBack)).map(|s| s.keep);
+    match it.next() {
+        None => true,
+        Some(first) => it.all(|k| k == first),
+    }
+}
+
+const fn n_states(n: u64) -> u64 {
+    (n + 1) * (n + 2) / 2
+}
+/// states x 3 interleavings x 3 consumer policies x 8 operations
+const fn table_total(n: u64) -> u64 {
+    n_states(n) * 3 * 3 * 8
+}
+
+/// EXHAUSTIVE: every cursor state (start,end), reached by front-first / back-first / alternating pulls,
+/// under three consumer policies, then one operation, then drop.
+fn table_case<V: VecOps<N>, const N: usize>(idx: u64, cx: &mut Cx) -> CaseResult {
+    let n = N;
+    let mut i = idx;
+    let op = ALL_OPS[(i % 8) as usize];
+    i /= 8;
+    let inter = (i % 3) as usize;
+    i /= 3;
+    let policy = (i % 3) as usize;
+    i /= 3;
+    // states ordered by the number of pulls p = 0..=n, then by the number of front pulls 0..=p,
+    // so that the first failing index is also the shortest history
+    let (mut p, mut rest) = (0usize, i as usize);
+    while rest > p {
+        rest -= p + 1;
+        p += 1;
+    }
+    let (start, end) = (rest, n - (p - rest));
+    debug_assert!(start <= end && end <= n);
+    let (mut f, mut b) = (start, n - end);
+    let mut pulls: Vec<Op> = Vec::with_capacity(n);
+    match inter {
+        0 => {
+            pulls.extend(std::iter::repeat(Op::Next).take(f));
+            pulls.extend(std::iter::repeat(Op::NextBack).take(b));
+        }
+        1 => {
+            pulls.extend(std::iter::repeat(Op::NextBack).take(b));
+            pulls.extend(std::iter::repeat(Op::Next).take(f));
+        }
+        _ => {
+            while f > 0 || b > 0 {
+                if f > 0 { pulls.push(Op::Next); f -= 1; }
+                if b > 0 { pulls.push(Op::NextBack); b -= 1; }
+            }
+        }
+    }
+    let keep_at = |q: usize| match policy { 0 => false, 1 => true, _ => q % 2 == 0 };
+    let mut steps: Vec<Step> = pulls.iter().enumerate().map(|(q, &op)| Step { op, keep: keep_at(q) }).collect();
+    let q = steps.len();
+    steps.push(Step { op, keep: keep_at(q) });
+    if op != Op::DropNow {
+        steps.push(Step { op: Op::Len, keep: false });
+        steps.push(Step { op: Op::SizeHint, keep: false });
+        let rem_after = (end - start).saturating_sub(if matches!(op, Op::Next | Op::NextBack) { 1 } else { 0 });
+        if rem_after == 0 {
+            // None once exhausted and ever after
+            for (w, o) in [Op::Next, Op::NextBack, Op::Next, Op::NextBack, Op::Len, Op::SizeHint].into_iter().enumerate() {
+                steps.push(Step { op: o, keep: keep_at(q + 1 + w) });
+            }
+        }
+    }
+    cx.label(match inter { 0 => "reach:front-first", 1 => "reach:back-first", _ => "reach:alternating" });
+    run_history::<V, N>(&steps, cx)
+}
+
+/// Random histories of length 0..=2n+8.
+fn random_case<V: VecOps<N>, const N: usize>(t: &mut Tape, cx: &mut Cx) -> CaseResult {
+    let len = t.below(2 * N + 9);
+    let mut steps = Vec::with_capacity(len);
+    for _ in 0..len {
+        // weights (of 64): len 2, size_hint 2, next 25, next_back 25, debug 3, hash 3, eq 3, drop-now 1
+        // (the iterator is dropped at the end of every history anyway; byte 0 -> the harmless `len`)
+        let op = match t.below(64) {
+            0..=1 => Op::Len,
+            2..=3 => Op::SizeHint,
+            4..=28 => Op::Next,
+            29..=53 => Op::NextBack,
+            54..=56 => Op::Debug,
+            57..=59 => Op::Hash,
+            60..=62 => Op::Eq,
+            _ => Op::DropNow,
+        };
+        let keep = if matches!(op, Op::Next | Op::NextBack) { t.bool() } else { false };
+        steps.push(Step { op, keep });
+        if op == Op::DropNow {
+            break;
+        }
+    }
+    run_history::<V, N>(&steps, cx)
+}
+const fn random_tape_len(n: usize) -> usize {
+    1 + 2 * (2 * n + 8)
+}
+
+// ------------------------------------------------------------------------------------------------
+// (b) conversions: vectors
+// ------------------------------------------------------------------------------------------------
+
+const VEC_CONV_FIXED: u64 = 13;
+const fn vec_conv_total(n: u64) -> u64 {
+    VEC_CONV_FIXED + 2 * n + 3 // from_iter lengths 0..=2n+2
+}
+
+macro_rules! in_transit {
+    ($cx:expr, $what:expr, $e:expr) => {{
+        let before = ledger::totals();
+        let r = $e;
+        let after = ledger::totals();
+        $cx.count();
+        if before != after {
+            fail!("{}: elements were created / cloned / dropped / observed in transit: before {:?}, after {:?}", $what, before, after);
+        }
+        settle_strict($cx, &|| format!("{}", $what))?;
+        r
+    }};
+}
+
+/// Like `in_transit!` for expressions that create exactly `$n` fresh elements themselves.
+macro_rules! in_transit_created {
+    ($cx:expr, $n:expr, $what:expr, $e:expr) => {{
+        let before = ledger::totals();
+        let r = $e;
+        let after = ledger::totals();
+        $cx.count();
+        if after.ids != before.ids + $n || after.drops != before.drops || after.clones != before.clones || after.observed != before.observed {
+            fail!("{}: elements were cloned / dropped / observed in transit: before {:?}, after {:?}", $what, before, after);
+        }
+        settle_strict($cx, &|| format!("{}", $what))?;
+        r
+    }};
+}
+
+fn vec_conv_case<V: VecOps<N>, const N: usize>(idx: u64, cx: &mut Cx) -> CaseResult {
+    ledger::reset();
+    let n = N;
+    let name = V::NAME;
+    cx.nontrivial();
+    // vals are offset so that val != id and a Default-created element is recognisable
+    let mk = |k: usize| ledger::fresh(1000 + k as u32);
+    macro_rules! expect_ids {
+        ($what:expr, $get:expr, $len:expr, $want:expr) => {{
+            for k in 0..$len {
+                let got: u32 = $get(k);
+                let want: u32 = $want(k);
+                cx.count();
+                if got != want {
+                    fail!("{} {}: position {} holds element #{}, the documented order puts #{} there", name, $what, k, got, want);
+                }
+            }
+        }};
+    }
+    match idx {
+        0 => {
+            cx.label("From<[T;N]>");
+            sample!(cx, "{}::from([#0..#{}])", name, n - 1);
+            let a: [Tracked; N] = std::array::from_fn(mk);
+            let v = in_transit!(cx, format!("{}::from([T; {}])", name, n), V::from_array(a));
+            expect_ids!("From<[T;N]>", |k| v.fld(k).id, n, |k| k as u32);
+            drop(v);
+        }
+        1 => {
+            cx.label("into_array");
+            let v = V::build(&mut |k| mk(k));
+            let a = in_transit!(cx, format!("{}::into_array", name), v.into_array_());
+            expect_ids!("into_array", |k: usize| a[k].id, n, |k| k as u32);
+            drop(a);
+        }
+        2 => {
+            cx.label("into_tuple");
+            let v = V::build(&mut |k| mk(k));
+            let t = in_transit!(cx, format!("{}::into_tuple", name), v.into_tuple_());
+            check_eq!(cx, t.len(), n, "{} into_tuple arity", name);
+            expect_ids!("into_tuple", |k: usize| t[k].id, n, |k| k as u32);
+            drop(t);
+        }
+        3 => {
+            cx.label("From<tuple>");
+            let v = in_transit_created!(cx, n, format!("{}::from(tuple)", name), V::from_tuple(&mut |k| mk(k)));
+            expect_ids!("From<tuple>", |k| v.fld(k).id, n, |k| k as u32);
+            drop(v);
+        }
+        4 => {
+            cx.label("into_iter().collect()");
+            let v = V::build(&mut |k| mk(k));
+            let out: Vec<Tracked> = in_transit!(cx, format!("{}::into_iter().collect::<Vec<_>>()", name), v.into_it().collect());
+            check_eq!(cx, out.len(), n, "{} into_iter().collect() length", name);
+            expect_ids!("into_iter().collect()", |k: usize| out[k].id, n, |k| k as u32);
+            drop(out);
+        }
+        5 => {
+            cx.label("into_iter().rev().collect()");
+            let v = V::build(&mut |k| mk(k));
+            let out: Vec<Tracked> = in_transit!(cx, format!("{}::into_iter().rev().collect::<Vec<_>>()", name), v.into_it().rev().collect());
+            check_eq!(cx, out.len(), n, "{} into_iter().rev().collect() length", name);
+            expect_ids!("into_iter().rev().collect()", |k: usize| out[k].id, n, |k| (n - 1 - k) as u32);
+            drop(out);
+        }
+        6 => {
+            cx.label("map(identity)");
+            let v = V::build(&mut |k| mk(k));
+            let w = in_transit!(cx, format!("{}::map(|t| t)", name), v.map_identity());
+            expect_ids!("map(|t| t)", |k| w.fld(k).id, n, |k| k as u32);
+            drop(w);
+        }
+        7 => {
+            cx.label("map(consume)");
+            let v = V::build(&mut |k| mk(k));
+            let ids = v.map_consume();
+            settle_strict(cx, &|| format!("{}::map(consuming closure)", name))?;
+            expect_ids!("map(|t| id of t)", |k| *ids.fld(k), n, |k| k as u32);
+            for k in 0..n {
+                let e = ledger::entry(k as u32).unwrap();
+                check!(cx, e.yields == 1 && e.consumer_drops == 1 && e.container_drops == 0 && e.clones == 0, "{}::map: element #{} must reach the closure exactly once and not be dropped by the vector: {:?}", name, k, e);
+            }
+        }
+        8 | 9 => {
+            let what = if idx == 8 { "zip" } else { "map2(|a, b| (a, b))" };
+            cx.label(if idx == 8 { "zip" } else { "map2" });
+            let a = V::build(&mut |k| mk(k));
+            let b = V::build(&mut |k| mk(100 + k));
+            let z = in_transit!(cx, format!("{}::{}", name, what), if idx == 8 { a.zip_(b) } else { a.map2_pair(b) });
+            expect_ids!(what, |k| z.fld(k).0.id, n, |k| k as u32);
+            expect_ids!(what, |k| z.fld(k).1.id, n, |k| (n + k) as u32);
+            drop(z);
+        }
+        10 => {
+            cx.label("map3");
+            let a = V::build(&mut |k| mk(k));
+            let b = V::build(&mut |k| mk(100 + k));
+            let c = V::build(&mut |k| mk(200 + k));
+            let z = a.map3_outer(b, c);
+            settle_strict(cx, &|| format!("{}::map3", name))?;
+            expect_ids!("map3 (first)", |k| z.fld(k).0.id, n, |k| k as u32);
+            expect_ids!("map3 (third)", |k| z.fld(k).1.id, n, |k| (2 * n + k) as u32);
+            for k in 0..n {
+                let e = ledger::entry((n + k) as u32).unwrap();
+                check!(cx, e.yields == 1 && e.consumer_drops == 1 && e.container_drops == 0, "{}::map3: middle element #{} must reach the closure exactly once: {:?}", name, n + k, e);
+            }
+            let t = ledger::totals();
+            check!(cx, t.clones == 0 && t.drops == n as u32 && t.ids == 3 * n, "{}::map3: unexpected clone/drop/creation: {:?}", name, t);
+            drop(z);
+        }
+        11 => {
+            cx.label("array round trip");
+            let a: [Tracked; N] = std::array::from_fn(mk);
+            let back = in_transit!(cx, format!("{}::from(array).into_array()", name), V::from_array(a).into_array_());
+            expect_ids!("from(array).into_array()", |k: usize| back[k].id, n, |k| k as u32);
+            drop(back);
+        }
+        12 => {
+            cx.label("collect-then-from_iter round trip");
+            let v = V::build(&mut |k| mk(k));
+            let mut src = v.into_it();
+            let w = V::from_iter_(&mut src);
+            settle_strict(cx, &|| format!("{}::from_iter(v.into_iter())", name))?;
+            expect_ids!("from_iter(v.into_iter())", |k| w.fld(k).id, n, |k| k as u32);
+            check_eq!(cx, src.len(), 0, "{} from_iter(v.into_iter()): source not drained", name);
+            drop(src);
+            drop(w);
+        }
+        _ => {
+            // FromIterator with a source of `len` elements: short -> tail Default-filled (`T: Default` bound,
+            // "Elements are initialized to their default values"), exact, long -> surplus never enters the vector.
+            let len = (idx - VEC_CONV_FIXED) as usize;
+            cx.label(if len == 0 { "from_iter:empty" } else if len < n { "from_iter:short" } else if len == n { "from_iter:exact" } else { "from_iter:long" });
+            sample!(cx, "{}::from_iter({} elements)", name, len);
+            let src: Vec<Tracked> = (0..len).map(mk).collect();
+            let mut it = src.into_iter();
+            let v = V::from_iter_(&mut it);
+            drop(it);
+            settle_strict(cx, &|| format!("{}::from_iter({} elements)", name, len))?;
+            let taken = len.min(n);
+            let mut seen: Vec<u32> = Vec::new();
+            for k in 0..n {
+                let t = v.fld(k);
+                let e = ledger::entry(t.id);
+                cx.count();
+                if k < taken {
+                    if t.id != k as u32 {
+                        fail!("{}::from_iter({} elements): position {} holds element #{}, want source element #{}", name, len, k, t.id, k);
+                    }
+                } else {
+                    match e {
+                        Some(e) if e.from_default && e.val == t.val => {}
+                        _ => fail!("{}::from_iter({} elements): tail position {} holds #{} (val {:#x}) which is not a Default-created element: {:?}", name, len, k, t.id, t.val, e),
+                    }
+                }
+                let e = e.unwrap();
+                check!(cx, e.st == St::Live && e.container_drops + e.consumer_drops == 0 && e.clones == 0, "{}::from_iter({} elements): element at position {} is not live / was cloned: {:?}", name, len, k, e);
+                check!(cx, !seen.contains(&t.id), "{}::from_iter({} elements): element #{} appears twice in the result", name, len, t.id);
+                seen.push(t.id);
+            }
+            // everything that is not in the result (overwritten defaults, surplus source elements) is dropped exactly once
+            let es = ledger::entries();
+            for (id, e) in es.iter().enumerate() {
+                cx.count();
+                if seen.contains(&(id as u32)) {
+                    continue;
+                }
+                if !(e.st == St::Dropped && e.container_drops == 1 && e.clones == 0) {
+                    fail!("{}::from_iter({} elements): element #{} ({}) is not in the result and was not dropped exactly once: {:?}", name, len, id, if e.from_default { "a Default value" } else { "a source element" }, e);
+                }
+                check!(cx, e.from_default || id >= n, "{}::from_iter({} elements): source element #{} was dropped instead of stored", name, len, id);
+            }
+            drop(v);
+        }
+    }
+    all_dropped_once(cx, &|| format!("{} conversion #{} after dropping every output", name, idx))
+}
+
+
+// ------------------------------------------------------------------------------------------------
+// (b) conversions: matrices
+// ------------------------------------------------------------------------------------------------
+
+const MAT_CONV_TOTAL: u64 = 18;
+
+fn mat_conv_case<M: MatOps<N, NN>, const N: usize, const NN: usize>(idx: u64, cx: &mut Cx) -> CaseResult
+where
+    M::Other: MatOps<N, NN, Other = M>,
+{
+    ledger::reset();
+    let n = N;
+    let name = M::NAME;
+    cx.nontrivial();
+    // id table of a matrix built through the public fields: ids[i][j]
+    let mut ids = [[u32::MAX; N]; N];
+    let build = |ids: &mut [[u32; N]; N], off: u32| {
+        M::build(&mut |i, j| {
+            let t = ledger::fresh(off + (10 * i + j) as u32);
+            ids[i][j] = t.id;
+            t
+        })
+    };
+    macro_rules! want {
+        ($what:expr, $pos:expr, $got:expr, $want:expr) => {{
+            cx.count();
+            let (g, w): (u32, u32) = ($got, $want);
+            if g != w {
+                fail!("{} {}: {} holds element #{}, the documented order puts #{} there (ids by (row, col): {:?})", name, $what, $pos, g, w, ids);
+            }
+        }};
+    }
+    match idx {
+        0 => {
+            cx.label("into_row_array");
+            let m = build(&mut ids, 500);
+            sample!(cx, "{}::into_row_array, ids by (row,col) = {:?}", name, ids);
+            let a = in_transit!(cx, format!("{}::into_row_array", name), m.into_row_array_());
+            for i in 0..n { for j in 0..n { want!("into_row_array", format!("[{}] (= m[{}][{}])", i * n + j, i, j), a[i * n + j].id, ids[i][j]); } }
+        }
+        1 => {
+            cx.label("into_col_array");
+            let m = build(&mut ids, 500);
+            let a = in_transit!(cx, format!("{}::into_col_array", name), m.into_col_array_());
+            for i in 0..n { for j in 0..n { want!("into_col_array", format!("[{}] (= m[{}][{}])", j * n + i, i, j), a[j * n + i].id, ids[i][j]); } }
+        }
+        2 => {
+            cx.label("into_row_arrays");
+            let m = build(&mut ids, 500);
+            let a = in_transit!(cx, format!("{}::into_row_arrays", name), m.into_row_arrays_());
+            for i in 0..n { for j in 0..n { want!("into_row_arrays", format!("[{}][{}]", i, j), a[i][j].id, ids[i][j]); } }
+        }
+        3 => {
+            cx.label("into_col_arrays");
+            let m = build(&mut ids, 500);
+            let a = in_transit!(cx, format!("{}::into_col_arrays", name), m.into_col_arrays_());
+            for i in 0..n { for j in 0..n { want!("into_col_arrays", format!("[{}][{}] (column {}, row {})", j, i, j, i), a[j][i].id, ids[i][j]); } }
+        }
+        4 | 5 => {
+            let row = idx == 4;
+            let what = if row { "from_row_array" } else { "from_col_array" };
+            cx.label(if row { "from_row_array" } else { "from_col_array" });
+            let a: [Tracked; NN] = std::array::from_fn(|k| ledger::fresh(700 + k as u32));
+            let aid: [u32; NN] = std::array::from_fn(|k| a[k].id);
+            let m = in_transit!(cx, format!("{}::{}", name, what), if row { M::from_row_array_(a) } else { M::from_col_array_(a) });
+            for i in 0..n { for j in 0..n {
+                let k = if row { i * n + j } else { j * n + i };
+                ids[i][j] = aid[k];
+                want!(what, format!("m[{}][{}] (array index {})", i, j, k), m.at(i, j).id, aid[k]);
+            } }
+        }
+        6 | 7 => {
+            let row = idx == 6;
+            let what = if row { "from_row_arrays" } else { "from_col_arrays" };
+            cx.label(if row { "from_row_arrays" } else { "from_col_arrays" });
+            let a: [[Tracked; N]; N] = std::array::from_fn(|p| std::array::from_fn(|q| ledger::fresh(700 + (10 * p + q) as u32)));
+            let aid: [[u32; N]; N] = std::array::from_fn(|p| std::array::from_fn(|q| a[p][q].id));
+            let m = in_transit!(cx, format!("{}::{}", name, what), if row { M::from_row_arrays_(a) } else { M::from_col_arrays_(a) });
+            for i in 0..n { for j in 0..n {
+                let w = if row { aid[i][j] } else { aid[j][i] };
+                ids[i][j] = w;
+                want!(what, format!("m[{}][{}]", i, j), m.at(i, j).id, w);
+            } }
+        }
+        8 => {
+            cx.label("transposed");
+            let m = build(&mut ids, 500);
+            let t = in_transit!(cx, format!("{}::transposed", name), m.transposed_());
+            for i in 0..n { for j in 0..n { want!("transposed", format!("t[{}][{}]", i, j), t.at(i, j).id, ids[j][i]); } }
+        }
+        9 => {
+            cx.label("transpose(in place)");
+            let mut m = build(&mut ids, 500);
+            in_transit!(cx, format!("{}::transpose", name), m.transpose_());
+            for i in 0..n { for j in 0..n { want!("transpose", format!("m[{}][{}]", i, j), m.at(i, j).id, ids[j][i]); } }
+        }
+        10 => {
+            cx.label("layout conversion");
+            let m = build(&mut ids, 500);
+            let o = in_transit!(cx, format!("{}::from({})", <M::Other as MatOps<N, NN>>::NAME, name), m.relayout());
+            for i in 0..n { for j in 0..n { want!("-> other layout", format!("m[{}][{}]", i, j), o.at(i, j).id, ids[i][j]); } }
+        }
+        11 => {
+            cx.label("new(m00, m01, ..)");
+            let mut arg = [u32::MAX; NN];
+            let m = in_transit_created!(cx, NN, format!("{}::new", name), M::new_(&mut |q| { let t = ledger::fresh(800 + q as u32); arg[q] = t.id; t }));
+            for i in 0..n { for j in 0..n { ids[i][j] = arg[i * n + j]; want!("new", format!("m[{}][{}] (argument {})", i, j, i * n + j), m.at(i, j).id, arg[i * n + j]); } }
+        }
+        12 => {
+            cx.label("map(identity)");
+            let m = build(&mut ids, 500);
+            let r = in_transit!(cx, format!("{}::map(|t| t)", name), m.map_identity());
+            for i in 0..n { for j in 0..n { want!("map(|t| t)", format!("m[{}][{}]", i, j), r.at(i, j).id, ids[i][j]); } }
+        }
+        13 => {
+            cx.label("map(consume)");
+            let m = build(&mut ids, 500);
+            let r = m.map_consume();
+            settle_strict(cx, &|| format!("{}::map(consuming closure)", name))?;
+            for i in 0..n { for j in 0..n {
+                want!("map(|t| id of t)", format!("m[{}][{}]", i, j), M::ids_at(&r, i, j), ids[i][j]);
+                let e = ledger::entry(ids[i][j]).unwrap();
+                check!(cx, e.yields == 1 && e.consumer_drops == 1 && e.container_drops == 0 && e.clones == 0, "{}::map: element #{} must reach the closure exactly once: {:?}", name, ids[i][j], e);
+            } }
+        }
+        14 => {
+            cx.label("map2");
+            let m = build(&mut ids, 500);
+            let mut ids2 = [[u32::MAX; N]; N];
+            let o = build(&mut ids2, 600);
+            let r = m.map2_left(o);
+            settle_strict(cx, &|| format!("{}::map2", name))?;
+            for i in 0..n { for j in 0..n {
+                want!("map2(|a, b| a)", format!("m[{}][{}]", i, j), r.at(i, j).id, ids[i][j]);
+                let e = ledger::entry(ids2[i][j]).unwrap();
+                check!(cx, e.yields == 1 && e.consumer_drops == 1 && e.container_drops == 0, "{}::map2: right element #{} must reach the closure exactly once: {:?}", name, ids2[i][j], e);
+                let e = ledger::entry(ids[i][j]).unwrap();
+                check!(cx, e.st == St::Live && e.clones == 0, "{}::map2: left element #{} must be live in the result: {:?}", name, ids[i][j], e);
+            } }
+        }
+        15 => {
+            cx.label("map_rows/map_cols(identity)");
+            let m = build(&mut ids, 500);
+            let r = in_transit!(cx, format!("{}::map_{{rows,cols}}(|l| l)", name), m.map_lines_identity());
+            for i in 0..n { for j in 0..n { want!("map_rows/map_cols(|l| l)", format!("m[{}][{}]", i, j), r.at(i, j).id, ids[i][j]); } }
+        }
+        16 => {
+            cx.label("diagonal");
+            let m = build(&mut ids, 500);
+            let d = m.diagonal_();
+            settle_strict(cx, &|| format!("{}::diagonal", name))?;
+            check_eq!(cx, d.len(), n, "{} diagonal length", name);
+            for i in 0..n { for j in 0..n {
+                let e = ledger::entry(ids[i][j]).unwrap();
+                if i == j {
+                    want!("diagonal", format!("d[{}]", i), d[i].id, ids[i][i]);
+                    check!(cx, e.st == St::Live && e.clones == 0, "{}::diagonal: element ({},{}) must be live in the result: {:?}", name, i, j, e);
+                } else {
+                    check!(cx, e.st == St::Dropped && e.container_drops == 1 && e.clones == 0, "{}::diagonal: off-diagonal element ({},{}) must be dropped exactly once: {:?}", name, i, j, e);
+                }
+            } }
+        }
+        _ => {
+            cx.label("round trips");
+            let m = build(&mut ids, 500);
+            let r = in_transit!(cx, format!("{} array/layout round trips", name), {
+                let m = M::from_row_arrays_(m.into_row_arrays_());
+                let m = M::from_col_arrays_(m.into_col_arrays_());
+                let m = M::from_row_array_(m.into_row_array_());
+                let m = M::from_col_array_(m.into_col_array_());
+                let o = m.relayout();
+                let o = <M::Other as MatOps<N, NN>>::from_row_array_(o.into_row_array_());
+                let back: M = <M::Other as MatOps<N, NN>>::relayout(o);
+                back.transposed_().transposed_()
+            });
+            for i in 0..n { for j in 0..n { want!("round trip", format!("m[{}][{}]", i, j), r.at(i, j).id, ids[i][j]); } }
+        }
+    }
+    all_dropped_once(cx, &|| format!("{} conversion #{} after dropping every output", name, idx))
+}
+
+// ------------------------------------------------------------------------------------------------
+// (c) views
+// ------------------------------------------------------------------------------------------------
+
+fn addr<T>(r: &T) -> usize {
+    r as *const T as usize
+}
+
+/// idx = kind * 2n + (mutable? n : 0) + k
+fn vec_view_case<V: VecOps<N>, const N: usize>(idx: u64, cx: &mut Cx) -> CaseResult {
+    ledger::reset();
+    let n = N;
+    let name = V::NAME;
+    let k = (idx as usize) % n;
+    let mutable = ((idx as usize) / n) % 2 == 1;
+    let kind = (idx as usize) / (2 * n);
+    cx.nontrivial();
+    let mut v = V::build(&mut |q| ledger::fresh(300 + q as u32));
+    let sz = std::mem::size_of::<Tracked>();
+    let base = addr(&v);
+    check_eq!(cx, std::mem::size_of::<V>(), n * sz, "{}: size_of differs from {} elements", name, n);
+    check_eq!(cx, v.elem_count_(), n, "{}::elem_count", name);
+    for q in 0..n {
+        check_eq!(cx, addr(v.fld(q)), base + q * sz, "{}: field {} is not element {} of the value's storage", name, q, q);
+    }
+    if !mutable {
+        let what = VIEW_KINDS[kind];
+        cx.label("shared view");
+        sample!(cx, "{} view {} checked against the fields", name, what);
+        let before = ledger::totals();
+        let w = v.view(kind);
+        check_eq!(cx, w.slice.as_ptr() as usize, base, "{} {}: the slice does not start at the value's own storage", name, what);
+        check_eq!(cx, w.slice.len(), n, "{} {}: length", name, what);
+        check_eq!(cx, w.refs.len(), n, "{} {}: number of items", name, what);
+        for q in 0..w.slice.len().min(n) {
+            check_eq!(cx, addr(&w.slice[q]), addr(v.fld(q)), "{} {}: entry {} does not alias field {}", name, what, q, q);
+            check_eq!(cx, w.slice[q].id, v.fld(q).id, "{} {}: entry {} is not element {}", name, what, q, q);
+        }
+        for q in 0..w.refs.len().min(n) {
+            check_eq!(cx, addr(w.refs[q]), addr(v.fld(q)), "{} {}: item {} does not alias field {}", name, what, q, q);
+        }
+        check_eq!(cx, ledger::totals(), before, "{} {}: a shared view must not create/clone/drop/observe elements", name, what);
+    } else {
+        let what = VIEW_MUT_KINDS[kind];
+        cx.label("mutable view (write-through)");
+        sample!(cx, "{} view {}: write through entry {}", name, what, k);
+        let field_addrs: Vec<usize> = (0..n).map(|q| addr(v.fld(q))).collect();
+        let field_ids: Vec<u32> = (0..n).map(|q| v.fld(q).id).collect();
+        let before = ledger::totals();
+        {
+            let s = v.view_mut(kind);
+            check_eq!(cx, s.as_ptr() as usize, base, "{} {}: the slice does not start at the value's own storage", name, what);
+            check_eq!(cx, s.len(), n, "{} {}: length", name, what);
+            for q in 0..s.len().min(n) {
+                check_eq!(cx, addr(&s[q]), field_addrs[q], "{} {}: entry {} does not alias field {}", name, what, q, q);
+                check_eq!(cx, s[q].id, field_ids[q], "{} {}: entry {} is not element {}", name, what, q, q);
+            }
+        }
+        if kind >= 4 {
+            let got = v.iter_mut_addrs(kind);
+            check_eq!(cx, got, field_addrs, "{} {}: items do not alias the fields in declaration order", name, what);
+        }
+        check_eq!(cx, ledger::totals(), before, "{} {}: taking a view must not create/clone/drop/observe elements", name, what);
+        // write through the view, read through the field
+        let fresh1 = ledger::fresh(900);
+        let id1 = fresh1.id;
+        let old = {
+            let s = v.view_mut(kind);
+            check!(cx, k < s.len(), "{} {}: entry {} missing", name, what, k);
+            std::mem::replace(&mut s[k], fresh1)
+        };
+        check_eq!(cx, old.id, field_ids[k], "{} {}: replacing entry {} returned another element", name, what, k);
+        ledger::yielded(&old);
+        ledger::consume(old);
+        for q in 0..n {
+            let want = if q == k { id1 } else { field_ids[q] };
+            check_eq!(cx, v.fld(q).id, want, "{} {}: after writing entry {}, field {}", name, what, k, q);
+        }
+        // write through the field, read through the view
+        let fresh2 = ledger::fresh(901);
+        let id2 = fresh2.id;
+        let old = std::mem::replace(v.fld_mut(k), fresh2);
+        check_eq!(cx, old.id, id1, "{}: field {} did not hold the element written through {}", name, k, what);
+        ledger::yielded(&old);
+        ledger::consume(old);
+        {
+            let s = v.view_mut(kind);
+            for q in 0..s.len().min(n) {
+                let want = if q == k { id2 } else { field_ids[q] };
+                check_eq!(cx, s[q].id, want, "{} {}: after writing field {}, entry {}", name, what, k, q);
+            }
+        }
+        let w = v.view(kind);
+        check_eq!(cx, w.slice[k].id, id2, "{} {}: after writing field {}, shared entry {}", name, VIEW_KINDS[kind], k, k);
+    }
+    settle_strict(cx, &|| format!("{} views", name))?;
+    drop(v);
+    all_dropped_once(cx, &|| format!("{} views, after dropping the vector", name))
+}
+
+/// idx = k (entry written through the mutable slice)
+fn mat_view_case<M: MatOps<N, NN>, const N: usize, const NN: usize>(idx: u64, cx: &mut Cx) -> CaseResult {
+    ledger::reset();
+    let n = N;
+    let name = M::NAME;
+    let k = idx as usize % NN;
+    let what = if M::ROW_MAJOR { "as_row_slice" } else { "as_col_slice" };
+    cx.nontrivial();
+    cx.label(if M::ROW_MAJOR { "as_row_slice: entry i*n+j = m[i][j]" } else { "as_col_slice: entry j*n+i = m[i][j]" });
+    let mut m = M::build(&mut |i, j| ledger::fresh(400 + (10 * i + j) as u32));
+    // entry q of the native slice is element (i, j) with
+    let ij = |q: usize| if M::ROW_MAJOR { (q / n, q % n) } else { (q % n, q / n) };
+    let sz = std::mem::size_of::<Tracked>();
+    let base = m.self_addr();
+    sample!(cx, "{} {} / mut / ptr variants, write through entry {}", name, what, k);
+    check_eq!(cx, M::size_of_self(), NN * sz, "{}: size_of differs from {} elements", name, NN);
+    check_eq!(cx, addr(m.at(0, 0)), base, "{}: element (0,0) is not at the start of the value", name);
+    let ids: Vec<u32> = (0..NN).map(|q| { let (i, j) = ij(q); m.at(i, j).id }).collect();
+    let addrs: Vec<usize> = (0..NN).map(|q| { let (i, j) = ij(q); addr(m.at(i, j)) }).collect();
+    let before = ledger::totals();
+    {
+        let s = m.native_slice();
+        check_eq!(cx, s.as_ptr() as usize, base, "{} {}: the slice does not start at the value's own storage", name, what);
+        check_eq!(cx, s.len(), NN, "{} {}: length", name, what);
+        for q in 0..s.len().min(NN) {
+            check_eq!(cx, addr(&s[q]), addrs[q], "{} {}: entry {} does not alias element {:?}", name, what, q, ij(q));
+            check_eq!(cx, s[q].id, ids[q], "{} {}: entry {} is not element {:?}", name, what, q, ij(q));
+        }
+    }
+    check_eq!(cx, m.native_ptr() as usize, base, "{} as_{{row,col}}_ptr", name);
+    check_eq!(cx, m.native_ptr_mut() as usize, base, "{} as_mut_{{row,col}}_ptr", name);
+    {
+        let s = m.native_slice_mut();
+        check_eq!(cx, s.as_ptr() as usize, base, "{} mutable {}: the slice does not start at the value's own storage", name, what);
+        check_eq!(cx, s.len(), NN, "{} mutable {}: length", name, what);
+        for q in 0..s.len().min(NN) {
+            check_eq!(cx, addr(&s[q]), addrs[q], "{} mutable {}: entry {} does not alias element {:?}", name, what, q, ij(q));
+        }
+    }
+    check_eq!(cx, ledger::totals(), before, "{} {}: taking a view must not create/clone/drop/observe elements", name, what);
+    // write-through, both directions
+    let fresh1 = ledger::fresh(900);
+    let id1 = fresh1.id;
+    let old = {
+        let s = m.native_slice_mut();
+        check!(cx, k < s.len(), "{} mutable {}: entry {} missing", name, what, k);
+        std::mem::replace(&mut s[k], fresh1)
+    };
+    check_eq!(cx, old.id, ids[k], "{} mutable {}: replacing entry {} returned another element", name, what, k);
+    ledger::yielded(&old);
+    ledger::consume(old);
+    for q in 0..NN {
+        let (i, j) = ij(q);
+        check_eq!(cx, m.at(i, j).id, if q == k { id1 } else { ids[q] }, "{} mutable {}: after writing entry {}, element ({},{})", name, what, k, i, j);
+    }
+    let fresh2 = ledger::fresh(901);
+    let id2 = fresh2.id;
+    let (ki, kj) = ij(k);
+    let old = std::mem::replace(m.at_mut(ki, kj), fresh2);
+    ledger::yielded(&old);
+    ledger::consume(old);
+    {
+        let s = m.native_slice();
+        for q in 0..s.len().min(NN) {
+            check_eq!(cx, s[q].id, if q == k { id2 } else { ids[q] }, "{} {}: after writing element ({},{}), entry {}", name, what, ki, kj, q);
+        }
+    }
+    settle_strict(cx, &|| format!("{} views", name))?;
+    drop(m);
+    all_dropped_once(cx, &|| format!("{} views, after dropping the matrix", name))
+}
+
+// ------------------------------------------------------------------------------------------------
+
 pub fn property() -> Property {
-    Property { id: "C18", rule: "", assumptions: &[], checks: Vec::new(), max_discard_frac: 0.2 }
+    let mut checks = Vec::new();
+    const RANDOM_QUICK: u64 = 4_000; // x 13 types = 52 000 histories
+    const RANDOM_THOROUGH: u64 = 160_000; // x 13 types = 2 080 000 histories (40 x quick)
+    macro_rules! per_vec {
+        ($V:ident, $n:expr, $table:expr, $random:expr, $conv:expr, $view:expr) => {{
+            let total = table_total($n);
+            checks.push(Check {
+                name: $table,
+                about: "EXHAUSTIVE IntoIter table: every cursor state (start,end), reached front-first / back-first / alternating, x 3 consumer keep/drop policies x {len,size_hint,next,next_back,{:?},hash,==twin,drop-now}, then drop; deque model + ownership ledger (each element yielded once XOR dropped once, none leaked, no read of a yielded element)",
+                kind: Kind::Index { total, quick: total, thorough: total, f: table_case::<$V<Tracked>, $n> },
+            });
+            checks.push(Check {
+                name: $random,
+                about: "random IntoIter histories (length <= 2n+8) over {len,size_hint,next,next_back,{:?},hash,==twin,drop-now} with tape-chosen keep/drop of each yielded element; same oracle as the table",
+                kind: Kind::Tape { len: random_tape_len($n), quick: RANDOM_QUICK, thorough: RANDOM_THOROUGH, f: random_case::<$V<Tracked>, $n> },
+            });
+            let total = vec_conv_total($n);
+            checks.push(Check {
+                name: $conv,
+                about: "From<[T;N]>, into_array, into_tuple, From<tuple>, into_iter().collect() (+rev), map (identity / consuming), zip, map2, map3, round trips, from_iter with every source length 0..=2n+2 (tail Default-filled, surplus never stored): id at position k as documented, nothing cloned/dropped/observed in transit, nothing leaked",
+                kind: Kind::Index { total, quick: total, thorough: total, f: vec_conv_case::<$V<Tracked>, $n> },
+            });
+            let total = 6 * 2 * $n;
+            checks.push(Check {
+                name: $view,
+                about: "as_slice/Deref/AsRef/Borrow/iter/(&v).into_iter() and the six mutable counterparts: pointer identity with the value's own storage, length = element count, entry k aliases field k, write-through in both directions at every k",
+                kind: Kind::Index { total, quick: total, thorough: total, f: vec_view_case::<$V<Tracked>, $n> },
+            });
+        }};
+    }
+    per_vec!(Vec2, 2, "intoiter-table-vec2", "intoiter-random-vec2", "conv-vec2", "views-vec2");
+    per_vec!(Vec3, 3, "intoiter-table-vec3", "intoiter-random-vec3", "conv-vec3", "views-vec3");
+    per_vec!(Vec4, 4, "intoiter-table-vec4", "intoiter-random-vec4", "conv-vec4", "views-vec4");
+    per_vec!(Vec8, 8, "intoiter-table-vec8", "intoiter-random-vec8", "conv-vec8", "views-vec8");
+    per_vec!(Vec16, 16, "intoiter-table-vec16", "intoiter-random-vec16", "conv-vec16", "views-vec16");
+    per_vec!(Vec32, 32, "intoiter-table-vec32", "intoiter-random-vec32", "conv-vec32", "views-vec32");
+    per_vec!(Vec64, 64, "intoiter-table-vec64", "intoiter-random-vec64", "conv-vec64", "views-vec64");
+    per_vec!(Extent2, 2, "intoiter-table-extent2", "intoiter-random-extent2", "conv-extent2", "views-extent2");
+    per_vec!(Extent3, 3, "intoiter-table-extent3", "intoiter-random-extent3", "conv-extent3", "views-extent3");
+    per_vec!(Rgb, 3, "intoiter-table-rgb", "intoiter-random-rgb", "conv-rgb", "views-rgb");
+    per_vec!(Rgba, 4, "intoiter-table-rgba", "intoiter-random-rgba", "conv-rgba", "views-rgba");
+    per_vec!(Uv, 2, "intoiter-table-uv", "intoiter-random-uv", "conv-uv", "views-uv");
+    per_vec!(Uvw, 3, "intoiter-table-uvw", "intoiter-random-uvw", "conv-uvw", "views-uvw");
+    macro_rules! per_mat {
+        ($M:ty, $n:expr, $nn:expr, $conv:expr, $view:expr) => {{
+            checks.push(Check {
+                name: $conv,
+                about: "{into,from}_{row,col}_array(s), transposed, transpose, layout conversion, new, map (identity / consuming), map2, map_rows/map_cols, diagonal, round trips, against a matrix built through the public rows/cols fields: row arrays list m[i][j] at i*n+j, column arrays at j*n+i; nothing cloned/dropped/observed in transit, nothing leaked",
+                kind: Kind::Index { total: MAT_CONV_TOTAL, quick: MAT_CONV_TOTAL, thorough: MAT_CONV_TOTAL, f: mat_conv_case::<$M, $n, $nn> },
+            });
+            checks.push(Check {
+                name: $view,
+                about: "as_row_slice (row-major) / as_col_slice (column-major), mut and ptr variants: start at the value's own storage, n*n entries, entry k aliases the element the layout puts there, write-through in both directions at every k",
+                kind: Kind::Index { total: $nn, quick: $nn, thorough: $nn, f: mat_view_case::<$M, $n, $nn> },
+            });
+        }};
+    }
+    per_mat!(rm::Mat2<Tracked>, 2, 4, "conv-row-mat2", "views-row-mat2");
+    per_mat!(cm::Mat2<Tracked>, 2, 4, "conv-col-mat2", "views-col-mat2");
+    per_mat!(rm::Mat3<Tracked>, 3, 9, "conv-row-mat3", "views-row-mat3");
+    per_mat!(cm::Mat3<Tracked>, 3, 9, "conv-col-mat3", "views-col-mat3");
+    per_mat!(rm::Mat4<Tracked>, 4, 16, "conv-row-mat4", "views-row-mat4");
+    per_mat!(cm::Mat4<Tracked>, 4, 16, "conv-col-mat4", "views-col-mat4");
+    Property {
+        id: "C18",
+        rule: "iterator cases are histories over {next, next_back, len, size_hint, {:?}, ==twin, hash, drop-now} with a keep/drop decision of the consumer for every yielded element: the table enumerates every (start,end) x {front-first, back-first, alternating} x 3 consumer policies x 8 operations for each of the 13 vector types, random histories come from proptest byte tapes; a history is non-trivial when it pulls from both ends and the iterator is dropped with >= 1 element still inside, or when it formats/compares/hashes after >= 1 pull; conversion and view cases (finite, fully enumerated) are all non-trivial: every element is a distinct Tracked id; distinct = distinct index / consumed tape prefix per check",
+        assumptions: &[
+            "rustc, std (arrays, Vec, slices, DefaultHasher) and the proptest runner/shrinker are trusted",
+            "the oracle is the thread-local ownership ledger of c18::ledger::Tracked (a plain {id,val} struct, so that reading a stale slot is harmless for the harness) plus a deque model of the iterator; neither calls vek",
+            "the consumer marks every element it receives by value as yielded; every other drop is attributed to the container/iterator",
+            "vectors and matrices are built and read through their public fields (struct literals, m.rows.<i>.<j>, m.cols.<j>.<i>)",
+            "a correct Debug/PartialEq/Hash of IntoIter may only touch live elements; additionally asserted: no panic, an iterator equals its identically-driven twin, equal iterators hash equally; format and hash value are free",
+            "FromIterator fills the tail of a short source with Default values (T: Default bound; from_slice doc: elements are initialized to their default values) and never stores surplus elements",
+        ],
+        checks,
+        max_discard_frac: 0.2,
+    }
 }
